@@ -2920,8 +2920,18 @@ impl<'de, 'e> de::Deserializer<'de> for YamlDeserializer<'de, 'e> {
         impl<'de> de::VariantAccess<'de> for TaggedVA<'de> {
             type Error = Error;
 
-            fn unit_variant(self) -> Result<(), Error> {
-                Ok(())
+            /// `!Variant` or `!Variant ~`: like `{ Variant: payload }`, a unit variant only
+            /// accepts a null-like payload.
+            fn unit_variant(mut self) -> Result<(), Error> {
+                match self.replay.peek()? {
+                    None => Ok(()),
+                    Some(Ev::Scalar {
+                        value: s, style, ..
+                    }) if scalar_is_nullish(s, style) => Ok(()),
+                    Some(other) => Err(Error::UnexpectedValueForUnitEnumVariant {
+                        location: other.location(),
+                    }),
+                }
             }
 
             fn newtype_variant_seed<T>(mut self, seed: T) -> Result<T::Value, Error>
